@@ -419,6 +419,10 @@ example : eval {} {} (.compare .gt (.value (.int 2)) (.value (.real 0x3ff8000000
     isFiniteNumber (.real 0x3ff8000000000000) = true ∧ holdsOn .gt (numValue (.int 2)) (numValue (.real 0x3ff8000000000000)) = true := ⟨rfl, by decide, by decide⟩
 example : eval {} {} (.compare .eq (.value (.int (2 ^ 53 + 1))) (.value (.real 0x4340000000000000))) = .ok (.bool false) ∧
     eval {} {} (.compare .gt (.value (.int (2 ^ 53 + 1))) (.value (.real 0x4340000000000000))) = .ok (.bool true) := ⟨rfl, rfl⟩
+-- NaN = NaN, NaN > +inf, NaN > every INT in WHERE comparisons
+example : eval {} {} (.compare .eq (.value (.real 0x7ff8000000000000)) (.value (.real 0xfff8000000000001))) = .ok (.bool true) ∧
+    eval {} {} (.compare .gt (.value (.real 0x7ff8000000000000)) (.value (.real 0x7ff0000000000000))) = .ok (.bool true) ∧
+    eval {} {} (.compare .lt (.value (.int 9223372036854775807)) (.value (.real 0x7ff8000000000000))) = .ok (.bool true) := ⟨rfl, rfl, rfl⟩
 example : holdsOn .eq (numValue (.real 0)) (numValue (.real 0x8000000000000000)) = true ∧
     holdsOn .le (numValue (.real 1)) (numValue (.real 0x0010000000000000)) = true := by decide
 
